@@ -31,7 +31,7 @@ Record field := mkfield {
   f_label : N;
   f_type : N;
   f_number : N;
-  f_is_ext : bool;            (* proto.GetExtendee() != "" *)
+  f_is_ext : bool;            (* proto.GetExtendee() is not empty *)
   f_has_oneof : bool;         (* proto.OneofIndex != nil *)
   f_p3opt : bool;             (* proto.GetProto3Optional() *)
   f_packed : option bool;     (* options.packed, None when not set *)
